@@ -195,22 +195,24 @@ class Checker:
             return None
         return cands[0]
 
-    def facts(self, node, expand=True, stop=None) -> list:
-        fs = pathcond.facts(self.idx, node, stop)
+    def facts(self, node, expand=True, stop=None, at_entry=False) -> list:
+        fs = pathcond.facts(self.idx, node, stop, at_entry=at_entry)
         if expand:
             fs = pathcond.expand_helpers(self.idx, fs, self.resolve_helper)
         return fs
 
-    def holds(self, node, req, extra_facts=()) -> bool:
-        fs = list(self.facts(node)) + list(extra_facts)
+    def holds(self, node, req, extra_facts=(), at_entry=False) -> bool:
+        fs = list(self.facts(node, at_entry=at_entry)) + list(extra_facts)
         return R(req).holds(fs, self.env(node))
 
     # ---------------------------------------------------------------- rules
     def guard(self, rule: str, node, reqs: Sequence, f: Optional[Func] = None,
-              extra_facts=(), what: str = '') -> bool:
-        """R-GUARD: every requirement is among node's path conditions."""
+              extra_facts=(), what: str = '', at_entry=False) -> bool:
+        """R-GUARD: every requirement is among node's path conditions.
+        at_entry: judge the conditions under which the enclosing branches
+        were entered (ignore later re-assignment of tested names)."""
         f = f or self.owner(node)
-        fs = list(self.facts(node)) + list(extra_facts)
+        fs = list(self.facts(node, at_entry=at_entry)) + list(extra_facts)
         env = self.env(node)
         allok = True
         for r in reqs:
